@@ -73,7 +73,11 @@ class Wb2CsrWorld(World):
         ratio = ww // cw
         cbus = hw.construct(csr.Interface, addr_width=caw, data_width=cw, path=("csr",))
         cbus.memory_map = MemoryMap(addr_width=caw, data_width=cw)
-        dut = hw.construct(WishboneCSRBridge, cbus, data_width=ww)
+        if caw >= max(1, log2(ratio)):
+            dut = hw.must_accept("C10", f"WishboneCSRBridge(csr {caw}x{cw}, data_width={ww})",
+                                 WishboneCSRBridge, cbus, data_width=ww)
+        else:
+            dut = hw.construct(WishboneCSRBridge, cbus, data_width=ww)
         wb = dut.wb_bus
         sim = hw.build_sim(hw.make_top(dut))
         waw = len(wb.adr)
